@@ -47,12 +47,82 @@ SEQ_KINDS = ["plain", "undeclared-reference", "internal", "laughs", "external-fi
 def shards(tier):
     out = [{"entry": e, "tier": tier} for e in ENTRY] + [{"seq": "pairs", "slice": [i, 4]} for i in range(4)] + \
         [{"seq": "triples", "slice": [i, 4]} for i in range(4)]
+    out.append({"linked": True})
     if tier != "quick":
         out += [{"seq": "triples-full", "slice": [i, 16]} for i in range(16)]
     return out
 
 
+def _run_linked(case, ctx):
+    """A clean Parallels disk whose image lives in another .hdd directory (linked clone / template); that directory has a
+    DiskDescriptor.xml of its own which declares entities.  Opening and reading the clean disk neither expands nor fetches
+    anything from the neighbour, and the image is read as the clean descriptor says (Plain)."""
+    from dissect.hypervisor.disk.hdd import HDD
+
+    from mc import pattern
+    from mc.builders import hdd as B
+
+    fam, how = case["family"], case["how"]
+    ctx.executions += 1
+    ctx.model(case)
+    ctx.sample(case)
+    ctx.nontrivial += 1
+    with scratch_dir() as d:
+        canary = os.path.join(d, "canary-secret")
+        with open(canary, "w") as f:
+            f.write("Compressed")
+        with open(canary + ".dtd", "w") as f:
+            f.write('<!ENTITY t "Compressed">')
+        tdir = os.path.join(d, "template.pvm", "template.hdd")
+        cdir = os.path.join(d, "clone.pvm", "clone.hdd")
+        os.makedirs(tdir)
+        os.makedirs(cdir)
+        data = pattern.sectors(3, 0, 16)
+        with open(os.path.join(tdir, "template.hds"), "wb") as f:
+            f.write(data)
+        ref = os.path.join(tdir, "template.hds") if how == "absolute" else "../../template.pvm/template.hdd/template.hds"
+        good = B.descriptor_xml(16, [(0, 16, [(B.DEFAULT_TOP, "Plain", ref)])], [(B.DEFAULT_TOP, B.NULL_GUID)])
+        with open(os.path.join(cdir, "DiskDescriptor.xml"), "w") as f:
+            f.write(good)
+        decl = {"internal": '<!ENTITY t "Compressed">', "laughs": '<!ENTITY a "Comp"><!ENTITY b "&a;ressed"><!ENTITY t "&b;">',
+                "external-file": f'<!ENTITY t SYSTEM "file://{canary}">',
+                "param-external": f'<!ENTITY % ext SYSTEM "file://{canary}.dtd"> %ext;'}[fam]
+        hostile = B.descriptor_xml(16, [(0, 16, [(B.DEFAULT_TOP, "Plain", "template.hds")])], [(B.DEFAULT_TOP, B.NULL_GUID)])
+        hostile = hostile.replace("<Type>Plain</Type>", "<Type>&t;</Type>")
+        head, sep, rest = hostile.partition("?>")
+        hostile = (head + sep + f"<!DOCTYPE Parallels_disk_image [{decl}]>" + rest) if sep else f"<!DOCTYPE Parallels_disk_image [{decl}]>" + hostile
+        with open(os.path.join(tdir, "DiskDescriptor.xml"), "w") as f:
+            f.write(hostile)
+        ctx.transitions += 1
+        ctx.states += 1
+        got = exc = None
+        with ctx.watch(case, 120):
+            with monitors.armed() as events:
+                try:
+                    s = HDD(Path(cdir)).open()
+                    got = s.read(16 * 512)
+                except Exception as e:
+                    exc = e
+            evs = list(events)
+        bad = [e for e in evs if monitors.classify(e) == "network" or (e[0] == "open" and e[1] and isinstance(e[1][0], str)
+                                                                       and "canary" in e[1][0])]
+        if bad:
+            ctx.violation(case, {"subject": "xml.hdd-linked", "kind": "external-access", "family": fam},
+                          {"events": [repr(e)[:200] for e in bad[:3]]})
+            return
+        if exc is not None or got != data:
+            ctx.violation(case, {"subject": "xml.hdd-linked", "kind": "benign-document-misparsed", "family": fam},
+                          {"exception": repr(exc)[:200], "len": None if got is None else len(got)})
+            return
+        ctx.outcome("parsed")
+
+
 def run_shard(shard, ctx):
+    if shard.get("linked"):
+        for fam in ("internal", "laughs", "external-file", "param-external"):
+            for how in ("absolute", "relative"):
+                run_case({"linked": True, "family": fam, "how": how}, ctx)
+        return
     if "seq" in shard:
         # Shape B: sequences of documents handed to objects of any of the four classes in one process: what an earlier
         # document did (even one that failed) must not change how a later one is treated
@@ -86,7 +156,8 @@ def run_shard(shard, ctx):
                                   "siblings": True}, ctx)
                     if depth == 1 and site == "text":
                         # what may legally stand between the XML declaration and the DOCTYPE
-                        for prolog in ("pi", "comment", "whitespace", "pi+comment", "no-declaration"):
+                        for prolog in ("pi", "comment", "whitespace", "pi+comment", "no-declaration", "leading-blank-lines",
+                                       "leading-space", "leading-bom", "no-declaration-leading-blank"):
                             run_case({"entry": shard["entry"], "family": fam, "depth": depth, "site": site, "handle": handle,
                                       "pad": 0, "prolog": prolog}, ctx)
                         if handle == "bytes":
@@ -261,6 +332,8 @@ def _run_sequence(case, ctx):
 def run_case(case, ctx):
     if "sequence" in case:
         return _run_sequence(case, ctx)
+    if case.get("linked"):
+        return _run_linked(case, ctx)
     entry, fam, depth, site = case["entry"], case["family"], case["depth"], case["site"]
     ctx.executions += 1
     ctx.model(case)
@@ -276,8 +349,15 @@ def run_case(case, ctx):
         doc, expect = _document(entry, fam, depth, site, canary)
         if case.get("prolog"):
             ins = {"pi": '<?xml-stylesheet type="text/xsl" href="style.xsl"?>', "comment": "<!-- generated -->",
-                   "whitespace": "\n \t\n", "pi+comment": '<!-- c --><?proc data?>\n<!-- d -->', "no-declaration": ""}[case["prolog"]]
-            if case["prolog"] == "no-declaration":
+                   "whitespace": "\n \t\n", "pi+comment": '<!-- c --><?proc data?>\n<!-- d -->', "no-declaration": ""}.get(case["prolog"], "")
+            if case["prolog"] in ("leading-blank-lines", "leading-space", "leading-bom", "no-declaration-leading-blank"):
+                # white space / a byte order mark in front of the document (an XML declaration is then no longer at the start:
+                # such a document is not well-formed and may be refused as a whole -- it must never be accepted in part)
+                lead = {"leading-blank-lines": "\n\n", "leading-space": " ", "leading-bom": "\ufeff", "no-declaration-leading-blank": "\n \n"}[case["prolog"]]
+                if case["prolog"] == "no-declaration-leading-blank":
+                    doc = doc.replace('<?xml version="1.0"?>', "", 1)
+                doc = lead + doc
+            elif case["prolog"] == "no-declaration":
                 doc = doc.replace('<?xml version="1.0"?>', "", 1)
             else:
                 doc = doc.replace('<?xml version="1.0"?>', '<?xml version="1.0"?>' + ins, 1)
@@ -316,6 +396,8 @@ def run_case(case, ctx):
                               {"result": repr(result)[:200], "depth": depth})
                 return
             ctx.outcome("refused")
+        elif "leading" in (case.get("prolog") or "") and exc is not None:
+            ctx.outcome("refused")  # not well-formed (text in front of the XML declaration): refusing the whole document is fine
         elif fam == "predefined-redeclared":
             # expat discards declarations of the five predefined names without reporting them (nothing is ever expanded to
             # anything but the predefined character): refusing and parsing are both acceptable, expanding is not
